@@ -6,11 +6,19 @@ Operands reach Miller as DATA fields (DKVP columns a,b,c: the inference -> dispo
 matrix -> kernel path users hit); one mlr process evaluates every operator of a family
 (21 binary / 8 unary / 4 ternary) on a few thousand operand rows and prints, per cell,
 typeof(r) plus an exact rendering (fmtnum %d for ints, %.17le for floats).  A process that
-dies (Go panic / fatal exit) is localised to the (row, operator) cells that kill it by
-halving the operator set and then bisecting the rows (rows with an int-0 divisor / modulus
-are scheduled in a process of their own so that they cannot take a whole batch with them).
+dies (Go panic / fatal exit / CPU cap / deadlock) is localised to the (row, operator) cells that kill it by
+halving the operator set and then re-running the rows as a stream (one record per batch, flushed: the output of
+a dying process shows how far it got; rows with an int-0 divisor / modulus are scheduled in a process of their
+own so that they cannot take a whole batch with them).  A single (row, operator) process that exhausts its CPU
+cap, floods its output or deadlocks is a violation of kind "hang"; only the wall-clock watchdog stays
+inconclusive.
 
-Sub-monitors (--only): grid, unary, ternary, random, near, mulband, around (thorough only).
+The same model judges the operands delivered in other ways (MODES below): first-touched fields with one
+operator per process, JSON numbers, computed intermediates, compound assignments, DSL literals; 15 % of the int
+operands in data text are spelled 0x / -0x / 0b / 0o.
+
+Sub-monitors (--only): grid, pow2, unary, ternary, random, near, mulband, pownear1, touch, json, computed,
+opassign, literal, around (thorough only).
 """
 import hashlib
 import math
@@ -1017,8 +1025,9 @@ def run(chk):
         "the correctly rounded exact result (the docs only say 'converts to float').",
         "** and pow on floats / overflowing ints: Go's math.Pow is not correctly rounded; results within %d ulp of "
         "C/IEEE pow() are accepted, plus %.2f ulp per unit of |exponent| (the worst case of repeated squaring is "
-        "|y| * 2^-53 relative = |y|/2..|y| ulp; reference-dsl-operators.md: functions are pass-throughs to the Go "
-        "library); the largest distance observed and the largest distance per unit of exponent are reported; "
+        "|y| * 2^-53 relative = |y|/2..|y| ulp) plus 2|yf ln x| ulp for a fractional part yf of the exponent (rounding "
+        "of the argument of exp(yf log x)); reference-dsl-operators.md: functions are pass-throughs to the Go "
+        "library; the largest distance observed and the largest distance per unit of exponent are reported; "
         "subnormal bases/results are not compared." % (A.POW_ULPS, A.POW_ULPS_PER_UNIT),
         "// and % with a float operand: floor(x/y) and x - y*floor(x/y) or Python's x//y, x%y are all accepted "
         "(the docs say 'pythonic' without defining the float case); ./ with a float operand: quotient with or "
